@@ -303,7 +303,7 @@ def catalogue_scene(r, words):
 def comb_grid(r):
     """a bus with taps: a horizontal run with a lead-in and junctions, from which bars go up and / or down; grouping
     its cells takes several passes of a greedy merge (each tap is a group of its own until the bus reaches it)"""
-    taps, lead, pitch = r.randint(1, 8), r.randint(0, 4), r.choice([1, 2, 2, 3])
+    taps, lead, pitch = r.choice([r.randint(1, 8), r.randint(1, 8), r.randint(9, 40), r.randint(60, 90)]), r.randint(0, 4), r.choice([1, 2, 2, 3])
     up, down = r.randint(0, 3), r.randint(0, 3)
     if up == 0 and down == 0:
         up = 1
@@ -338,4 +338,24 @@ def walk_grid(r, wmax=14, hmax=8):
             if g[y][x] == " ":
                 g[y][x] = "-" if dx else "|"
             x, y = nx, ny
+    return "\n".join("".join(row).rstrip() for row in g)
+
+
+def hatch_grid(r):
+    """a hatched triangle: bars hanging from the top row at every other column, each two rows shorter than its left
+    neighbour, a '/' run along their lower ends, and a long bar at the left edge that goes on below the hatching: a
+    grouping that needs one pass per bar"""
+    nb = r.choice([r.randint(3, 7), r.randint(8, 14), r.randint(15, 30)])
+    L = 2 * nb + 3
+    H, W = L + r.randint(2, 5), 2 * nb + 4
+    g = [[" "] * W for _ in range(H)]
+    for y in range(H):
+        g[y][0] = "|"
+    for i in range(nb):
+        x = 2 * i + 2
+        for y in range(0, L - x):
+            g[y][x] = "|"
+    for x in range(1, 2 * nb + 3):
+        if 0 <= L - x < H:
+            g[L - x][x] = "/"
     return "\n".join("".join(row).rstrip() for row in g)
